@@ -13,6 +13,8 @@ import (
 	"strings"
 	"sync"
 	"time"
+
+	"verif/sim/prng"
 )
 
 // Env describes where things are.
@@ -264,6 +266,12 @@ func firstLines(s string, n int) string {
 // execOnce executes one scenario in a fresh process and returns the class of
 // the violation it shows ("" = none).
 func execOnce(env Env, p Property, phase Phase, raw []byte, verbose bool) (class, sig, detail, output string, err error) {
+	return execSeq(env, p, phase, nil, raw, verbose)
+}
+
+// execSeq is execOnce after executing the prelude scenarios in the same
+// process.
+func execSeq(env Env, p Property, phase Phase, prelude []json.RawMessage, raw []byte, verbose bool) (class, sig, detail, output string, err error) {
 	bin := env.PlainBin
 	if phase.Race {
 		bin = env.RaceBin
@@ -276,6 +284,17 @@ func execOnce(env Env, p Property, phase Phase, raw []byte, verbose bool) (class
 	tmp.Write(raw)
 	tmp.Close()
 	args := []string{"exec", "-prop", p.ID(), "-phase", phase.Name, "-file", tmp.Name()}
+	if len(prelude) > 0 {
+		pf, perr := os.CreateTemp(env.OutRoot, "prelude-*.json")
+		if perr != nil {
+			return "", "", "", "", perr
+		}
+		defer os.Remove(pf.Name())
+		pb, _ := json.Marshal(prelude)
+		pf.Write(pb)
+		pf.Close()
+		args = append(args, "-prelude", pf.Name())
+	}
 	if verbose {
 		args = append(args, "-v")
 	}
@@ -403,9 +422,17 @@ func report(env Env, p Property, ph Phase, seed uint64, fv *FoundViolation, know
 		// For race reports allow several attempts (bounded shadow memory).
 		okc := false
 		if fv.V.Class == "data-race" {
-			for i := 0; i < 20 && !okc; i++ {
+			// A race report needs the two accesses to stay unordered; incidental
+			// happens-before edges (e.g. sync.Pool inside encoding/json under
+			// -race) make reproduction probabilistic, so try repeatedly.
+			for i := 0; i < 80 && !okc; i++ {
 				class, sig, detail, out, _ = execOnce(env, p, ph, fv.Scenario, false)
 				okc = class == fv.V.Class
+			}
+		}
+		if !okc && fv.N > 0 && fv.V.Class != "data-race" && fv.V.Class != "process-crash" {
+			if path, code, handled := reportWithHistory(env, p, ph, seed, fv, known); handled {
+				return path, code
 			}
 		}
 		if !okc {
@@ -421,18 +448,22 @@ func report(env Env, p Property, ph Phase, seed uint64, fv *FoundViolation, know
 	maxTests, maxDur := 3000, 90*time.Second
 	var tester Tester
 	if fv.V.Class == "data-race" || fv.V.Class == "process-crash" {
-		maxTests, maxDur = 120, 120*time.Second
+		maxTests, maxDur = 60, 150*time.Second
 		tester = func(raw []byte) bool {
 			if _, err := p.Decode(raw); err != nil {
 				return false
 			}
-			for i := 0; i < 2; i++ {
+			tries := 1
+			if fv.V.Class == "data-race" {
+				tries = 8
+			}
+			for i := 0; i < tries; i++ {
 				c, _, _, _, err := execOnce(env, p, ph, raw, false)
-				if err != nil || c != fv.V.Class {
-					return false
+				if err == nil && c == fv.V.Class {
+					return true
 				}
 			}
-			return true
+			return false
 		}
 	} else {
 		tester = func(raw []byte) bool {
@@ -447,7 +478,7 @@ func report(env Env, p Property, ph Phase, seed uint64, fv *FoundViolation, know
 	small, tests := Shrink(fv.Scenario, tester, maxTests, maxDur)
 	fmt.Printf("  minimised %d -> %d bytes in %d executions\n", len(fv.Scenario), len(small), tests)
 	class2, sig2, detail2, _, err := execOnce(env, p, ph, small, false)
-	for i := 0; i < 10 && fv.V.Class == "data-race" && (err != nil || class2 != fv.V.Class); i++ {
+	for i := 0; i < 80 && fv.V.Class == "data-race" && (err != nil || class2 != fv.V.Class); i++ {
 		class2, sig2, detail2, _, err = execOnce(env, p, ph, small, false)
 	}
 	if err != nil || class2 != fv.V.Class {
@@ -468,7 +499,7 @@ func report(env Env, p Property, ph Phase, seed uint64, fv *FoundViolation, know
 	}
 	// the replay file must reproduce in a fresh process
 	rc, _, _, out, err := execOnce(env, p, ph, small, false)
-	for i := 0; i < 10 && class2 == "data-race" && (err != nil || rc != class2); i++ {
+	for i := 0; i < 80 && class2 == "data-race" && (err != nil || rc != class2); i++ {
 		rc, _, _, out, err = execOnce(env, p, ph, small, false)
 	}
 	if err != nil || rc != class2 {
@@ -478,6 +509,99 @@ func report(env Env, p Property, ph Phase, seed uint64, fv *FoundViolation, know
 	fmt.Printf("  class: %s\n  sig: %s\n  detail: %s\n", class2, sig2, oneLine(detail2, 600))
 	fmt.Printf("VIOLATION property=%s replay=%s\n", p.ID(), path)
 	return path, ExitViolation
+}
+
+// reportWithHistory handles a violation that does not reproduce on its own:
+// the library keeps state between calls, so the scenarios the same worker
+// executed earlier in its process are part of the failing history. They are
+// regenerated from the seed, the history is confirmed in a fresh process,
+// minimised (ddmin over the prelude, then the usual shrinking of the last
+// scenario) and written to the replay file as "prelude".
+func reportWithHistory(env Env, p Property, ph Phase, seed uint64, fv *FoundViolation, known []Known) (string, int, bool) {
+	var prelude []json.RawMessage
+	for i := uint64(fv.K); i < fv.Run; i += uint64(fv.N) {
+		sc := p.Generate(prng.New(prng.RunSeed(seed, i)), ph.Name)
+		raw, err := json.Marshal(sc)
+		if err != nil {
+			return "", ExitInfra, false
+		}
+		prelude = append(prelude, raw)
+		if len(prelude) > 50000 {
+			fmt.Fprintf(os.Stderr, "the violation depends on more than 50000 earlier scenarios of its worker; not replayed\n")
+			return "", ExitInfra, false
+		}
+	}
+	if len(prelude) == 0 {
+		return "", ExitInfra, false
+	}
+	same := func(pre []json.RawMessage, raw []byte) bool {
+		c, _, _, _, err := execSeq(env, p, ph, pre, raw, false)
+		return err == nil && c == fv.V.Class
+	}
+	if !same(prelude, fv.Scenario) {
+		return "", ExitInfra, false
+	}
+	fmt.Printf("  the violation needs earlier scenarios of the same process (hidden state between calls): history of %d scenarios confirmed\n", len(prelude)+1)
+	// ddmin over the prelude
+	tests := 0
+	for size := len(prelude); size >= 1 && tests < 80; {
+		removed := false
+		for from := 0; from+size <= len(prelude) && tests < 80; {
+			cand := append(append([]json.RawMessage{}, prelude[:from]...), prelude[from+size:]...)
+			tests++
+			if same(cand, fv.Scenario) {
+				prelude = cand
+				removed = true
+			} else {
+				from += size
+			}
+		}
+		if size == 1 && !removed {
+			break
+		}
+		if size > len(prelude) {
+			size = len(prelude)
+		} else if !removed || size > 1 {
+			size /= 2
+		}
+	}
+	// shrink the last scenario with the prelude fixed, then each prelude scenario
+	small, t2 := Shrink(fv.Scenario, func(raw []byte) bool {
+		if _, err := p.Decode(raw); err != nil {
+			return false
+		}
+		return same(prelude, raw)
+	}, 80, 90*time.Second)
+	for i := range prelude {
+		idx := i
+		pre2, _ := Shrink(prelude[idx], func(raw []byte) bool {
+			if _, err := p.Decode(raw); err != nil {
+				return false
+			}
+			cand := append([]json.RawMessage{}, prelude...)
+			cand[idx] = raw
+			return same(cand, small)
+		}, 60, 60*time.Second)
+		prelude[idx] = pre2
+	}
+	fmt.Printf("  minimised to a history of %d scenarios (%d + %d executions)\n", len(prelude)+1, tests, t2)
+	class2, sig2, detail2, out, err := execSeq(env, p, ph, prelude, small, false)
+	if err != nil || class2 != fv.V.Class {
+		fmt.Fprintf(os.Stderr, "minimised history does not reproduce\n%s\n", lastLines(out, 20))
+		return "", ExitInfra, true
+	}
+	if kn := MatchKnown(known, p.ID(), sig2); kn != nil {
+		fmt.Printf("KNOWN-FINDING: property=%s sig=%s %s\n", p.ID(), kn.Sig, kn.Text)
+		return "", ExitOK, true
+	}
+	path := filepath.Join(env.VerifDir, "replays", fmt.Sprintf("%s-%d-%016x.json", p.ID(), seed, HashBytes(append(append([]byte{}, small...), byte(len(prelude))))))
+	if err := writeReplay(path, Replay{Property: p.ID(), Phase: ph.Name, Seed: seed, Run: fv.Run, Class: class2, Sig: sig2, Detail: detail2, Shrunk: true, Prelude: prelude, Scenario: small}); err != nil {
+		fmt.Fprintln(os.Stderr, err)
+		return "", ExitInfra, true
+	}
+	fmt.Printf("  class: %s\n  sig: %s\n  detail: %s\n", class2, sig2, oneLine(detail2, 600))
+	fmt.Printf("VIOLATION property=%s replay=%s\n", p.ID(), path)
+	return path, ExitViolation, true
 }
 
 func oneLine(s string, n int) string {
@@ -527,9 +651,9 @@ func ReplayFile(env Env, id, path string) int {
 	if ph.Name == "" {
 		ph = Phase{Name: r.Phase}
 	}
-	class, sig, detail, out, err := execOnce(env, p, ph, r.Scenario, true)
-	for i := 0; i < 10 && r.Class == "data-race" && err == nil && class != r.Class; i++ {
-		class, sig, detail, out, err = execOnce(env, p, ph, r.Scenario, true)
+	class, sig, detail, out, err := execSeq(env, p, ph, r.Prelude, r.Scenario, true)
+	for i := 0; i < 80 && r.Class == "data-race" && err == nil && class != r.Class; i++ {
+		class, sig, detail, out, err = execSeq(env, p, ph, r.Prelude, r.Scenario, true)
 	}
 	fmt.Print(out)
 	if err != nil {
@@ -660,7 +784,8 @@ func round1(f float64) float64 { return float64(int64(f*10+0.5)) / 10 }
 // sample of seeds several times under different worker counts and GOMAXPROCS
 // settings, and the per-run (scenario hash, event-log hash, verdict) lists
 // must be identical.
-func SelfTest(env Env, ids []string, runs int) int {
+func SelfTest(env Env, ids []string, runs int, dump string) int {
+	var dumpLines []string
 	if len(ids) == 0 {
 		ids = IDs()
 	}
@@ -729,8 +854,14 @@ func SelfTest(env Env, ids []string, runs int) int {
 					bad += diffs
 				}
 				fmt.Printf("selftest %s/%s seed=%d: %d runs x %d configurations compared\n", id, ph.Name, seed, len(ref), len(cfgs))
+				for _, l := range ref {
+					dumpLines = append(dumpLines, fmt.Sprintf("%s/%s seed=%d %s", id, ph.Name, seed, l))
+				}
 			}
 		}
+	}
+	if dump != "" {
+		os.WriteFile(dump, []byte(strings.Join(dumpLines, "\n")+"\n"), 0o644)
 	}
 	if bad > 0 {
 		fmt.Printf("selftest FAILED: %d divergent runs\n", bad)
